@@ -43,6 +43,7 @@ func checkC01(p *load.Program, r *kit.Report) {
 		func(o *kit.Obligation) bool { return strings.Contains(o.Construct, "reselect-after-trim") }, "MUST-PASS")
 	importRules(p, r, "C11", "Clean saves a side branch and prunes it from memory: what the repository reports for pruned heights afterwards is what Branch.Save wrote", 2,
 		func(o *kit.Obligation) bool { return strings.HasPrefix(o.Construct, "Branch.Save") }, "MERGE-SHAPE")
+	importRules(p, r, "C09", "Hash(h)/Header(h) must answer from the tip's in-memory ancestry before the header files, and only up to the tip: the files still hold the previous best chain until the next save", 6, nil, "TIP-BOUND")
 	r.NotDecided = "that the tree built by a particular history has the cumulative work a model assigns; arrival-order independence; the effect of Clean/Save/Load in between (C10/C11); numerical work values."
 	r.Rule("ARGMAX", "Branches.Longest replaces the incumbent exactly on the edge where the candidate's Last().AccumulatedWork compares greater (or greater-or-equal) through (*big.Int).Cmp; the incumbent is kept otherwise", 1)
 	r.Rule("WRITERS", "every store to Repository.longest takes its value from Branches.Longest(), from a root branch built by NewBranch(nil, …) or from Consolidate() of the previous longest", 7)
@@ -50,6 +51,9 @@ func checkC01(p *load.Program, r *kit.Report) {
 	r.Rule("WORK-FLOW", "AccumulatedWork of a new HeaderData = predecessor's AccumulatedWork + ConvertToWork(ConvertToDifficulty(header.Bits)), computed in a big.Int allocated in the function; stored work values are never the receiver of a mutating big.Int method", 3)
 	r.Rule("GUARD-DOM", "every append to Branch.headers of a submitted header is behind last.Hash.Equal(&header.PrevBlock); AtHeight indexes headers[height-parentHeight-offset] and delegates to parent.AtHeight(height) exactly when height <= parentHeight", 3)
 	r.Rule("PROVENANCE", "Height/LastHash/LastTime/AccumulatedWork/Hash/header read the tip through repo.longest", 6)
+
+	r.Rule("LINK-FIRST", "Branch.Link (load) attaches a branch to the first branch of the oldest-first list that knows its previous hash and stops there: Find answers through ancestors, so a later match is an older sibling, not the parent", 1)
+	checkLinkFirst(p, r, "LINK-FIRST")
 
 	funcs := pkgFuncs(p, H)
 	longestF := field(p, r, "WRITERS", H, "Repository", "longest")
@@ -1087,4 +1091,118 @@ func checkTipReaders(p *load.Program, r *kit.Report, longestF *types.Var) {
 		}
 		r.Check(bad == "", "PROVENANCE", name+"/reads-longest", posOf(p, f.Blocks[0].Instrs[0]), "reads the tip branch through repo.longest", bad)
 	}
+}
+
+// checkLinkFirst: Branch.Link attaches a loaded branch to the FIRST branch of the (oldest-first
+// sorted) list whose Find knows the previous hash. Find recurses into ancestors, so a later branch
+// — an older sibling that forked lower from the same parent — also "contains" the hash; taking it
+// makes AtHeight serve the sibling's headers for the heights between the two fork points.
+func checkLinkFirst(p *load.Program, r *kit.Report, rule string) {
+	f := fn(p, r, rule, H, "Branch.Link")
+	if f == nil {
+		return
+	}
+	parentF := p.Field(H, "Branch", "parent")
+	if parentF == nil || len(f.Params) < 2 {
+		r.Unknown(rule, "Branch.Link/parent", "-", "Branch.parent or the branches parameter not found")
+		return
+	}
+	list := f.Params[1]
+	isElem := func(v ssa.Value) *ssa.UnOp {
+		u, ok := kit.Strip(v).(*ssa.UnOp)
+		if !ok || u.Op != token.MUL {
+			return nil
+		}
+		ia, ok := u.X.(*ssa.IndexAddr)
+		if !ok || kit.Strip(ia.X) != ssa.Value(list) {
+			return nil
+		}
+		return u
+	}
+	reaches := func(from []*ssa.BasicBlock, target *ssa.BasicBlock) bool {
+		seen := map[*ssa.BasicBlock]bool{}
+		st := append([]*ssa.BasicBlock{}, from...)
+		for len(st) > 0 {
+			b := st[len(st)-1]
+			st = st[:len(st)-1]
+			if seen[b] {
+				continue
+			}
+			seen[b] = true
+			if b == target {
+				return true
+			}
+			st = append(st, b.Succs...)
+		}
+		return false
+	}
+	loopHeaderOf := func(b *ssa.BasicBlock) *ssa.BasicBlock {
+		var best *ssa.BasicBlock
+		bestN := 0
+		for _, h := range f.Blocks {
+			back := false
+			for _, pr := range h.Preds {
+				if h.Dominates(pr) {
+					back = true
+				}
+			}
+			if !back {
+				continue
+			}
+			l := naturalLoop(h)
+			if l[b] && (best == nil || len(l) < bestN) {
+				best, bestN = h, len(l)
+			}
+		}
+		return best
+	}
+	n := 0
+	bad := ""
+	var check func(v ssa.Value, after []*ssa.BasicBlock, depth int)
+	check = func(v ssa.Value, after []*ssa.BasicBlock, depth int) {
+		if depth > 6 || bad != "" {
+			return
+		}
+		if kit.IsNilConst(v) {
+			return
+		}
+		if e := isElem(v); e != nil {
+			n++
+			h := loopHeaderOf(e.Block())
+			if h == nil {
+				bad = "the branch stored as parent is not taken inside a loop over the list"
+				return
+			}
+			if reaches(after, h) {
+				bad = "after a branch that knows the previous hash was chosen the loop over the (oldest-first) list goes on: a later match — an older sibling whose Find answers through the shared ancestor — replaces the first one"
+			}
+			return
+		}
+		if phi, ok := v.(*ssa.Phi); ok {
+			for _, e := range phi.Edges {
+				if e == ssa.Value(phi) {
+					continue
+				}
+				check(e, []*ssa.BasicBlock{phi.Block()}, depth+1)
+			}
+			return
+		}
+		bad = "parent is " + describe(v) + ", not an element of the list"
+	}
+	var at ssa.Instruction
+	for _, w := range kit.DirectWrites(f) {
+		if w.Field != parentF || w.Kind != "store" {
+			continue
+		}
+		at = w.Instr
+		check(w.Val, w.Instr.Block().Succs, 0)
+	}
+	if at == nil {
+		r.Bad(rule, "Branch.Link/first-match", posOf(p, f.Blocks[0].Instrs[0]), "Link never stores b.parent")
+		return
+	}
+	if n == 0 && bad == "" {
+		bad = "no element of the list is stored as parent"
+	}
+	r.Check(bad == "", rule, "Branch.Link/first-match", posOf(p, at), "b.parent is the first branch of the list that knows the previous hash (the loop ends there)", bad)
 }
